@@ -1742,16 +1742,7 @@ func (c *Ctx) ruleJ3() {
 			if calleeFull(call) != logMod+".NewFromEntryHash" {
 				return
 			}
-			var lenVal ssa.Value
-			for _, a := range call.Common().Args {
-				p, ok := a.Type().(*types.Pointer)
-				if !ok || !strings.HasSuffix(typeStr(p.Elem()), "FetchOptions") {
-					continue
-				}
-				if l, ok := structLitFields(a)["Length"]; ok {
-					lenVal = l
-				}
-			}
+			lenVal, _ := c.fetchOptField(call, "Length")
 			if lenVal == nil {
 				return
 			}
